@@ -270,6 +270,8 @@ class FIXTester:
         clord_id = cxl_req[FTag.ClOrdID]
         orig_clord_id = cxl_req[FTag.OrigClOrdID]
 
+        assert ord_status != FOrdStatus.CREATED, "CREATED is internal (non FIX) status"
+
         m = FIXMessage(FMsg.ORDERCANCELREJECT)
         m[37] = 0
         m[11] = clord_id
@@ -324,6 +326,8 @@ class FIXTester:
             EXECUTIONREPORT FIXMessage
         """
         assert order.clord_id in self.registered_orders, "Unregistered order!"
+
+        assert ord_status != FOrdStatus.CREATED, "CREATED is internal (non FIX) status"
 
         m = FIXMessage(FMsg.EXECUTIONREPORT)
         assert clord_id
